@@ -2,6 +2,7 @@ package main
 
 import (
 	"fmt"
+	"go/constant"
 	"go/token"
 	"go/types"
 	"strings"
@@ -198,4 +199,58 @@ func intWidthC01(c *Ctx) {
 		}
 	}
 	c.Floor("C01.intwidth", n, 4)
+}
+
+// durationScanC01: the lexer lets every unit rune of ParseDuration continue a
+// duration literal.
+func durationScanC01(c *Ctx) {
+	p := c.P
+	c.Rule("C01.duration-scan", "in Scanner.scanNumber every test that lets a letter continue a duration literal also lets through the unit runes of ParseDuration's table that isLetter does not accept (µ): otherwise a compound literal whose later component uses that unit (1s500µ) is cut in two and rejected")
+	f := p.SSAFunc(p.Method("Scanner", "scanNumber"))
+	isLetter := p.Func("isLetter")
+	if f == nil || isLetter == nil {
+		c.Unk("C01.duration-scan", "(*Scanner).scanNumber", 0, "anchor not found")
+		return
+	}
+	// unit runes that are not letters for the lexer
+	var extra []rune
+	for _, r := range []rune{'n', 'u', 'µ', 'm', 's', 'h', 'd', 'w'} {
+		if ok, decided := p.newSCCP().evalConstBool(isLetter, cConst(constant.MakeInt64(int64(r)))); decided && !ok {
+			extra = append(extra, r)
+		}
+	}
+	n := 0
+	for _, b := range f.Blocks {
+		for _, in := range b.Instrs {
+			call, ok := in.(*ssa.Call)
+			if !ok || call.Call.StaticCallee() == nil || call.Call.StaticCallee().Object() != isLetter || len(call.Call.Args) != 1 {
+				continue
+			}
+			n++
+			arg := call.Call.Args[0]
+			key := fmt.Sprintf("(*Scanner).scanNumber: letter test #%d", n)
+			var missing []string
+			for _, r := range extra {
+				found := false
+				for _, ref := range *arg.Referrers() {
+					if bo, ok := ref.(*ssa.BinOp); ok && (bo.Op == token.EQL || bo.Op == token.NEQ) {
+						if k, ok := bo.Y.(*ssa.Const); ok && k.Value != nil {
+							if v, _ := constant.Int64Val(constant.ToInt(k.Value)); rune(v) == r {
+								found = true
+							}
+						}
+					}
+				}
+				if !found {
+					missing = append(missing, string(r))
+				}
+			}
+			if len(missing) > 0 {
+				c.Bad("C01.duration-scan", key, call.Pos(), "the rune is accepted as part of the literal only if isLetter holds; the unit "+strings.Join(missing, ", ")+" of ParseDuration's table is not a letter for the lexer and is not let through here")
+			} else {
+				c.OK("C01.duration-scan", key, call.Pos(), "letters and the non-letter unit runes")
+			}
+		}
+	}
+	c.Floor("C01.duration-scan", n, 2)
 }
